@@ -55,7 +55,8 @@ fn c04_dfs(ctx: &Ctx, l: &mut Local, root: &Pos, p: &Pos, b: &mut Board, depth: 
 fn c04_long_walk(ctx: &Ctx, l: &mut Local, root: &Pos, seed: u64, plies: usize) {
     let mut rng = Rng::new(seed);
     let policy = gen::POLICIES[(seed % 5) as usize];
-    let path = gen::random_game(root, &mut rng, if policy == Policy::Quiet { Policy::Special } else { policy }, plies);
+    // every fifth walk is a quiet shuffle, so that the half-move clock runs far beyond 100 before the unwinding
+    let path = gen::random_game(root, &mut rng, policy, plies);
     let mut b = to_engine(root);
     let mut p = root.clone();
     let mut snaps: Vec<Snapshot> = vec![];
@@ -82,6 +83,7 @@ fn c04_long_walk(ctx: &Ctx, l: &mut Local, root: &Pos, seed: u64, plies: usize) 
         p = p.make(m);
     }
     l.set_max("longest_sequence_unwound", ems.len() as u64);
+    l.set_max("highest_half_move_clock_unwound", snaps.iter().map(|s| s.halfmove).max().unwrap_or(0));
     let n = ems.len();
     for k in (0..n).rev() {
         b.toggle_turn();
@@ -121,7 +123,10 @@ fn c04_boundary(ctx: &Ctx, l: &mut Local, p: &Pos, g: &mut MoveGenerator, with_s
     guard("san_enumeration", &mut b, &mut |b| { enumerate_candidate_moves_with_algebraic_notation(b, turn, g); });
     if with_search {
         guard("count_positions", &mut b, &mut |b| { g.count_positions(1, b, turn); });
-        if !p.legal_moves().is_empty() { guard("alpha_beta_search", &mut b, &mut |b| { let _ = alpha_beta_search(&mut SearchContext::new(2), b, g); }); }
+        // with repetition bookkeeping present (the position has been registered), also on roots without a legal move
+        b.count_current_position();
+        guard("alpha_beta_search", &mut b, &mut |b| { let _ = alpha_beta_search(&mut SearchContext::new(2), b, g); });
+        guard("alpha_beta_search_depth_1", &mut b, &mut |b| { let _ = alpha_beta_search(&mut SearchContext::new(1), b, g); });
     }
 }
 
@@ -144,6 +149,14 @@ pub fn c04(o: &Opts) -> i32 {
         let mut chunk = vec![];
         for (i, (p, _)) in corpus.iter().enumerate() { chunk.push(p.clone()); if chunk.len() == 8 { units.push(U::Boundary(std::mem::take(&mut chunk), i % 16 == 7)); } }
         for _ in 0..if q { 20 } else { 200 } { units.push(U::Boundary((0..8).map(|_| gen::random_setup(&mut r)).collect(), r.chance(0.2))); }
+        // terminal roots (mated / stalemated) with the search among the guarded entry points
+        let mut tr = Rng::new(o.seed).fork(tag("c04-terminal"));
+        let mut term = gen::terminal_with_pieces(&mut tr, if q { 40_000 } else { 400_000 }, true);
+        term.extend(gen::terminal_with_pieces(&mut tr, if q { 20_000 } else { 200_000 }, false));
+        for ch in term.chunks(8).take(if q { 6 } else { 60 }) { units.push(U::Boundary(ch.to_vec(), true)); }
+        // quiet shuffles: the half-move clock passes 100 and keeps counting before everything is undone
+        let kn = Pos::from_fen("8/8/4k3/3Nn3/3nN3/4K3/8/8 w - - 0 1").unwrap();
+        for i in 0..if q { 6 } else { 40 } { units.push(U::Long(kn.clone(), 3 + 5 * i as u64, 150 + 10 * (i as usize % 5))); }
     }
     par::for_each(&units, par::threads(), |_i, u| {
         if ctx.budget_used() > 0.95 { ctx.count("units_skipped_for_time_budget", 1); return; }
@@ -164,7 +177,7 @@ pub fn c04(o: &Opts) -> i32 {
     ctx.finish(ctx.counter("driver_apply_undo_pairs") + ctx.counter("hook_undo_pairs") + ctx.counter("engine_calls_guarded"),
         "driver level: exhaustive walks (depth 2-3 from every corpus position) compare the full snapshot (64 squares, 12 piece boards, occupancies, turn, rights, ep, both clocks, key, repetition count, and via hook all stacks and the repetition map) at every unwinding level; seeded games of 100-400 plies are unwound completely; engine entry points (generation, annotated generation, check/mate queries, game_ending, score, SAN enumeration, count_positions, alpha_beta_search) are wrapped in before/after snapshots; hook level: shadow-stack monitor on every apply/undo pair inside the engine. distinct_nontrivial = distinct long sequences unwound",
         &["zero-count entries of the repetition map are ignored ('registered then unregistered' == 'never registered')", "the side to move is excluded from the hook-level digest because callers legitimately toggle it between apply and undo; it is part of the driver-level snapshots"],
-        &[("hook_undo_pairs", 100_000), ("undone_en_passant", 5), ("undone_castle", 20), ("undone_promotion", 20), ("undone_promotion_capture", 10), ("long_sequences_unwound", 20), ("engine_calls_guarded", 500), ("guarded_alpha_beta_search", 5)])
+        &[("hook_undo_pairs", 100_000), ("undone_en_passant", 5), ("undone_castle", 20), ("undone_promotion", 20), ("undone_promotion_capture", 10), ("long_sequences_unwound", 20), ("engine_calls_guarded", 500), ("guarded_alpha_beta_search", 5), ("highest_half_move_clock_unwound", 110)])
 }
 
 // ======================================================================================= C12
@@ -570,6 +583,27 @@ pub fn c15(o: &Opts) -> i32 {
         let n = 16 + r.below(24);
         let path = gen::random_game(&root, &mut r, if g % 3 == 0 { Policy::Shuffle } else { Policy::Uniform }, n);
         units.push(U::History(root, path, 1 + (g % 2) as u8));
+    }
+    // supplied near-standard positions (one unit removed) whose histories match book lines square by square
+    {
+        let start = Pos::start();
+        let mut odds: Vec<Pos> = vec![];
+        for s in (0..16u8).chain(48..64u8) { if start.sq[s as usize].map(|x| x.1) != Some(Pc::K) { let mut p = start.clone(); p.sq[s as usize] = None; if s == 0 { p.rights &= !WQ; } if s == 7 { p.rights &= !WK; } if s == 56 { p.rights &= !BQ; } if s == 63 { p.rights &= !BK; } if p.is_consistent() { odds.push(p); } } }
+        let mut count = 0;
+        let want = if q { 40 } else { 600 };
+        'outer: for round in 0..40 {
+            for (li, (_name, moves)) in source.iter().enumerate() {
+                let root = &odds[(li * 7 + round * 3 + r.below(odds.len())) % odds.len()];
+                // follow the line while its moves are legal here (by from/to squares)
+                let mut p = root.clone(); let mut path: Vec<Mv> = vec![];
+                for u in moves { let legal = p.legal_moves(); match legal.iter().find(|m| u.len() >= 4 && sq_name(m.from) == u[0..2] && sq_name(m.to) == u[2..4] && !matches!(m.kind, Kind::Promo(_) | Kind::PromoCapture(_))) { Some(m) => { path.push(*m); p = p.make(m); } None => break } }
+                if path.is_empty() { continue; }
+                units.push(U::History(root.clone(), path, 1));
+                count += 1;
+                if count >= want { break 'outer; }
+            }
+        }
+        ctx.count("odds_games_following_book_lines", count as u64);
     }
     par::for_each(&units, par::threads().min(8), |_i, u| {
         if ctx.budget_used() > 0.95 { ctx.count("units_skipped_for_time_budget", 1); return; }
